@@ -18,6 +18,10 @@
 //	manifest: set(Traverse reports) = set(Puts); pyramid keys U data lists = set(Puts);
 //	          data lists = per path (sorted, not ending in '/') the data chunks of the file
 //
+//	lift:     files of branching±1 identical chunks (2 GiB plain / 1 GiB encrypted) through the
+//	          real BMT/Store/HashTrie stages (no feeder): joiner directly and the real service via
+//	          a manifest; data list = the construction's chunk sequence
+//
 // Correspondence cases (Aurora.C09.Corr): the store as the decrypting store shows it
 // (span, payload length, references as identifiers) + observed results.
 package main
@@ -35,11 +39,16 @@ import (
 	"time"
 
 	"github.com/gauss-project/aurorafs/pkg/boson"
+	"github.com/gauss-project/aurorafs/pkg/encryption"
 	encstore "github.com/gauss-project/aurorafs/pkg/encryption/store"
 	"github.com/gauss-project/aurorafs/pkg/file/joiner"
 	"github.com/gauss-project/aurorafs/pkg/file/loadsave"
 	"github.com/gauss-project/aurorafs/pkg/file/pipeline"
+	"github.com/gauss-project/aurorafs/pkg/file/pipeline/bmt"
 	"github.com/gauss-project/aurorafs/pkg/file/pipeline/builder"
+	penc "github.com/gauss-project/aurorafs/pkg/file/pipeline/encryption"
+	"github.com/gauss-project/aurorafs/pkg/file/pipeline/hashtrie"
+	pstore "github.com/gauss-project/aurorafs/pkg/file/pipeline/store"
 	"github.com/gauss-project/aurorafs/pkg/manifest"
 	"github.com/gauss-project/aurorafs/pkg/storage"
 	"github.com/gauss-project/aurorafs/pkg/traversal"
@@ -170,10 +179,10 @@ func coqRuns(rs [][2]uint64) string {
 	first := true
 	for i := 0; i < len(rs); {
 		a, k := rs[i][0], rs[i][1]
-		n, dk := uint64(1), uint64(0)
-		if i+1 < len(rs) && rs[i+1][0] == a+1 && (rs[i+1][1] == k || rs[i+1][1] == k+1) {
-			dk = rs[i+1][1] - k
-			for i+int(n) < len(rs) && rs[i+int(n)][0] == a+n && rs[i+int(n)][1] == k+n*dk {
+		n, da, dk := uint64(1), uint64(0), uint64(0)
+		if i+1 < len(rs) && rs[i+1][0]-a <= 1 && rs[i+1][1]-k <= 1 && rs[i+1][0] >= a && rs[i+1][1] >= k {
+			da, dk = rs[i+1][0]-a, rs[i+1][1]-k
+			for i+int(n) < len(rs) && rs[i+int(n)][0] == a+n*da && rs[i+int(n)][1] == k+n*dk {
 				n++
 			}
 		}
@@ -181,7 +190,7 @@ func coqRuns(rs [][2]uint64) string {
 			sb.WriteString("; ")
 		}
 		first = false
-		fmt.Fprintf(&sb, "Run %d %d %d %d", a, k, n, dk)
+		fmt.Fprintf(&sb, "Run %d %d %d %d %d", a, k, n, da, dk)
 		i += int(n)
 	}
 	sb.WriteString("]")
@@ -324,6 +333,8 @@ type jcase struct {
 	Paths []string `json:"paths,omitempty"` // man
 	Sizes []int    `json:"sizes,omitempty"` // man: file size per path
 	Root  bool     `json:"root,omitempty"`  // man: add the "/" entry with the empty reference (index document)
+	N     int      `json:"n,omitempty"`     // lift: identical full data chunks
+	Tail  int      `json:"tail,omitempty"`  // lift: bytes of the last, shorter data chunk (0: none)
 }
 
 type harness struct {
@@ -585,12 +596,16 @@ func (h *harness) doIter(jc jcase) {
 		}
 	}
 	switch {
-	case jc.Last == -1: // a data chunk carried up next to full nodes
+	case jc.Last == -1: // a data chunk carried up next to full nodes (this one is stored)
 		l := fresh('L')
 		rootBuf = append(rootBuf, l...)
 		written = append(written, string(l))
 		leaves = append(leaves, string(l))
-		total += uint64(1 + r.Intn(chunkSize))
+		ll := 1 + r.Intn(chunkSize)
+		lb := make([]byte, 8+ll)
+		binary.LittleEndian.PutUint64(lb[:8], uint64(ll))
+		st.m[string(l)] = lb
+		total += uint64(ll)
 	case jc.Last > 0:
 		ll := 1 + r.Intn(chunkSize)
 		if r.Chance(1, 3) {
@@ -704,6 +719,247 @@ func sortedS(l []string) []string {
 	c := append([]string(nil), l...)
 	sort.Strings(c)
 	return c
+}
+
+// ---------------------------------------------------------------- multi-GiB files through the real writer stages
+
+// liftUpload stores a file of n identical full data chunks plus an optional shorter tail
+// through the real BMT -> Store -> HashTrie stages (encrypted: Encryption -> BMT -> Store ->
+// HashTrie with 64-byte references).  Only the feeder is left out: the repeated chunk goes
+// through the stages once and its (span, reference, key) is then handed to the hash trie
+// writer n-1 more times, so a 2 GiB file costs a few milliseconds.  Returns the file
+// reference, the reference bytes of the repeated chunk and of the tail.
+func liftUpload(ctx context.Context, st *recStore, enc bool, n, tail int) (ref, full, last []byte, err error) {
+	var tw, top pipeline.ChainWriter
+	if enc {
+		short := func() pipeline.ChainWriter {
+			return penc.NewEncryptionWriter(encryption.NewChunkEncrypter(), bmt.NewBmtWriter(pstore.NewStoreWriter(ctx, st, storage.ModePutUpload, nil)))
+		}
+		tw = hashtrie.NewHashTrieWriter(boson.ChunkSize, boson.Branches/2, boson.HashSize+encryption.KeyLength, short)
+		top = penc.NewEncryptionWriter(encryption.NewChunkEncrypter(), bmt.NewBmtWriter(pstore.NewStoreWriter(ctx, st, storage.ModePutUpload, tw)))
+	} else {
+		short := func() pipeline.ChainWriter {
+			return bmt.NewBmtWriter(pstore.NewStoreWriter(ctx, st, storage.ModePutUpload, nil))
+		}
+		tw = hashtrie.NewHashTrieWriter(boson.ChunkSize, boson.Branches, boson.HashSize, short)
+		top = bmt.NewBmtWriter(pstore.NewStoreWriter(ctx, st, storage.ModePutUpload, tw))
+	}
+	chunkOf := func(size int, fill byte) *pipeline.PipeWriteArgs {
+		d := make([]byte, 8+size)
+		binary.LittleEndian.PutUint64(d[:8], uint64(size))
+		for i := 8; i < len(d); i++ {
+			d[i] = fill + byte(i%251)
+		}
+		return &pipeline.PipeWriteArgs{Data: d, Span: append([]byte(nil), d[:8]...)}
+	}
+	f := chunkOf(chunkSize, 1)
+	if err = top.ChainWrite(f); err != nil {
+		return
+	}
+	full = append(append([]byte(nil), f.Ref...), f.Key...)
+	for i := 1; i < n; i++ {
+		if err = tw.ChainWrite(&pipeline.PipeWriteArgs{Ref: f.Ref, Span: f.Span, Key: f.Key}); err != nil {
+			return
+		}
+	}
+	if tail > 0 {
+		t := chunkOf(tail, 7)
+		if err = top.ChainWrite(t); err != nil {
+			return
+		}
+		last = append(append([]byte(nil), t.Ref...), t.Key...)
+	}
+	ref, err = top.Sum()
+	return
+}
+
+func (h *harness) doLift(jc jcase) {
+	run, ctx := h.run, h.ctx
+	st := newStore()
+	fileRef, full, last, err := liftUpload(ctx, st, jc.Enc, jc.N, jc.Tail)
+	if err != nil {
+		h.violate("lift:upload-failed", err.Error(), jc, nil, nil)
+		return
+	}
+	// expected data chunks in file order (independent of any tree walk: the construction)
+	var wantData []string
+	for i := 0; i < jc.N; i++ {
+		wantData = append(wantData, string(full[:32]))
+	}
+	if jc.Tail > 0 {
+		wantData = append(wantData, string(last[:32]))
+	}
+	filePuts := append([]string(nil), st.puts...)
+	cls := "plain"
+	branches := plainBranching
+	if jc.Enc {
+		cls, branches = "encrypted", plainBranching/2
+	}
+	shape := "one-level"
+	nd := len(wantData)
+	switch {
+	case nd == branches+1:
+		shape = "lifted-tail"
+	case nd > branches:
+		shape = "two-levels"
+	}
+
+	// ---- (1) the joiner directly on the file reference
+	var rep, dlist []string
+	edgeMap := map[string][]byte{}
+	var ierr error
+	done := hx.WithTimeout(120*time.Second, func() {
+		j, _, e := joiner.New(ctx, st, storage.ModeGetRequest, boson.NewAddress(fileRef))
+		if e != nil {
+			ierr = e
+			return
+		}
+		j.SetSaveDataChunks()
+		ierr = j.IterateChunkAddresses(func(a boson.Address) error {
+			rep = append(rep, string(a.Bytes()))
+			return nil
+		})
+		for _, b := range j.GetDataChunks() {
+			dlist = append(dlist, string(b))
+		}
+		j2, _, e := joiner.New(ctx, st, storage.ModeGetLookup, boson.NewAddress(fileRef))
+		if e != nil {
+			ierr = e
+			return
+		}
+		j2.SetSaveEdgeChunks(edgeMap)
+		if e := j2.IterateChunkAddresses(func(boson.Address) error { return nil }); e != nil && ierr == nil {
+			ierr = e
+		}
+	})
+	if !done {
+		h.violate("lift:timeout", "IterateChunkAddresses did not finish", jc, nil, nil)
+		return
+	}
+	ekeys, _ := pyramidKeys(edgeMap)
+	run.OracleChecked(3)
+	sig := func(what string) string { return "lift:" + what + ":" + cls + ":" + shape }
+	if ierr != nil {
+		h.violate(sig("iterate-error"), ierr.Error(), jc, nil, "no error")
+	} else {
+		ws, rs := setOf(filePuts), setOf(rep)
+		ok := len(ws) == len(rs)
+		for k := range ws {
+			ok = ok && rs[k]
+		}
+		if !ok {
+			h.violate(sig("reports!=written"), "IterateChunkAddresses reports differ from the Put addresses", jc, len(rs), len(ws))
+		}
+		if strings.Join(dlist, "|") != strings.Join(wantData, "|") {
+			bad := "content"
+			if len(dlist) > 0 && len(rep) > 0 && dlist[len(dlist)-1] == rep[0] {
+				bad = "root-listed-as-data-chunk"
+			}
+			h.violate(sig("data-chunks!=leaves:"+bad), "data chunk list differs from the data chunks the file was built from", jc, shortList(lastN(dlist, 3)), shortList(lastN(wantData, 3)))
+		}
+		ds := setOf(wantData)
+		for k := range ws {
+			if !ds[k] && k != rep[0] && edgeMap[hex.EncodeToString([]byte(k))] == nil {
+				h.violate(sig("edge-chunks-miss-intermediate"), "an intermediate chunk below the root is not among the edge chunks", jc, len(ekeys), nil)
+				break
+			}
+		}
+	}
+	x := newIDs()
+	views := buildViews(st, x, map[string]bool{}, fileRef)
+	root := x.ref(fileRef)
+	to := classify(ierr, h.idsOf(x, rep))
+	do := classify(ierr, h.idsOf(x, dlist))
+	eo := classify(ierr, sortedU(h.idsOf(x, ekeys), true))
+	coq := fmt.Sprintf("CIter %s %d %d\n    %s\n    %s %s %s", hx.CoqBool(jc.Enc), root[0], root[1], coqEnts(views), to.coq(), do.coq(), eo.coq())
+	run.AddCase("("+coq+")", jc, fmt.Sprintf("lift|%v|%d|%d", jc.Enc, jc.N, jc.Tail), nd > branches)
+	run.Hist("lift." + cls + "." + shape)
+
+	// ---- (2) the real traversal.Service, the file inside a directory manifest (a manifest
+	// reference is not read as a whole file first)
+	ls := loadsave.New(st, func() pipeline.Interface {
+		return builder.NewPipelineBuilder(ctx, st, storage.ModePutUpload, jc.Enc)
+	})
+	m, err := manifest.NewDefaultManifest(ls, jc.Enc)
+	if err != nil {
+		panic(err)
+	}
+	if err := m.Add(ctx, "file.bin", manifest.NewEntry(boson.NewAddress(fileRef), nil)); err != nil {
+		h.violate("lift:manifest-add-failed", err.Error(), jc, nil, nil)
+		return
+	}
+	addr, err := m.Store(ctx)
+	if err != nil {
+		h.violate("lift:manifest-store-failed", err.Error(), jc, nil, nil)
+		return
+	}
+	puts := append([]string(nil), st.puts...)
+	tr := traversal.New(st)
+	var trep []string
+	var terr, perr, herr error
+	var py map[string][]byte
+	var hashes [][][]byte
+	done = hx.WithTimeout(180*time.Second, func() {
+		trep, terr = collectTraverse(ctx, tr, addr)
+		py, perr = tr.GetPyramid(ctx, addr)
+		hashes, _, herr = tr.GetChunkHashes(ctx, addr, nil)
+	})
+	if !done {
+		h.violate("lift:timeout", "traversal did not finish", jc, nil, nil)
+		return
+	}
+	run.OracleChecked(3)
+	if terr != nil || perr != nil || herr != nil {
+		h.violate(sig("service-error"), fmt.Sprintf("traverse=%v pyramid=%v hashes=%v", terr, perr, herr), jc, nil, "no error")
+		return
+	}
+	ws, rs := setOf(puts), setOf(trep)
+	ok := len(ws) == len(rs)
+	for k := range ws {
+		ok = ok && rs[k]
+	}
+	if !ok {
+		h.violate(sig("traverse!=written"), "Traverse reports differ from the Put addresses", jc, len(rs), len(ws))
+	}
+	var hl []string
+	if len(hashes) == 1 {
+		for _, b := range hashes[0] {
+			hl = append(hl, string(b))
+		}
+	}
+	if len(hashes) != 1 || strings.Join(hl, "|") != strings.Join(wantData, "|") {
+		bad := "content"
+		if len(hl) > 0 && hl[len(hl)-1] == string(fileRef[:32]) {
+			bad = "root-listed-as-data-chunk"
+		}
+		h.violate(sig("service-data-chunks!=leaves:"+bad), "GetChunkHashes(nil) differs from the data chunks the file was built from", jc, shortList(lastN(hl, 3)), shortList(lastN(wantData, 3)))
+	}
+	pkeys, _ := pyramidKeys(py)
+	ps, ds := setOf(pkeys), setOf(hl)
+	bad := ""
+	for k := range ps {
+		if !ws[k] {
+			bad = "pyramid-key-not-written"
+		}
+		if ds[k] {
+			bad = "overlap"
+		}
+	}
+	for k := range ws {
+		if !ps[k] && !ds[k] {
+			bad = "not-covered"
+		}
+	}
+	if bad != "" {
+		h.violate(sig("pyramid+data!=written:"+bad), "pyramid key set and data chunk list do not partition the written chunks", jc, len(pkeys), len(ws))
+	}
+}
+
+func lastN(l []string, n int) []string {
+	if len(l) > n {
+		return l[len(l)-n:]
+	}
+	return l
 }
 
 // ---------------------------------------------------------------- manifests
@@ -913,12 +1169,57 @@ func (h *harness) doMan(jc jcase) {
 		}
 		return fmt.Sprintf("(MN %s %s %d (%d%%N, %d%%N) %s)", self, hx.CoqBool(n.isValue), ecls, er[0], er[1], kl)
 	}
+	var sortKids func(n *mnodeInfo)
+	sortKids = func(n *mnodeInfo) {
+		sort.Slice(n.kids, func(i, j int) bool { return bytes.Compare(n.kids[i].path, n.kids[j].path) < 0 })
+		for _, k := range n.kids {
+			sortKids(k)
+		}
+	}
+	sortKids(rootN) // ascending fork byte, as the model's fork lists
 	mterm := emit(rootN)
 	to := classify(terr, sortedU(h.idsOf(x, rep), false))
 	po := classify(perr, sortedU(h.idsOf(x, pkeys), true))
 	coq := fmt.Sprintf("CMan %s\n    %s\n    %s\n    %s %s", hx.CoqBool(jc.Enc), mterm, coqEnts(views), to.coq(), po.coq())
 	run.AddCase("("+coq+")", jc, fmt.Sprintf("man|%v|%v|%d|%s", jc.Enc, jc.Root, jc.Sub, strings.Join(jc.Paths, ",")), len(jc.Paths) >= 2)
 	run.Hist(fmt.Sprintf("man.%s.paths=%s.nodes=%s", cls, bucket(len(jc.Paths)), bucket(nodes)))
+
+	// ---- the loader itself: real node payloads into the byte-level model (plain, small manifests)
+	if !jc.Enc && len(jc.Paths) <= 4 && terr == nil {
+		var tbl, pls []string
+		seenRef := map[string]bool{}
+		addTbl := func(b []byte) {
+			if len(b) > 0 && !seenRef[string(b)] {
+				seenRef[string(b)] = true
+				tbl = append(tbl, fmt.Sprintf("(%s, %d%%N)", hx.CoqBytes(b), x.ref(b)[0]))
+			}
+		}
+		okLoad := true
+		var collect func(n *mnodeInfo)
+		collect = func(n *mnodeInfo) {
+			addTbl(n.ref)
+			if len(n.entry) > 0 && !bytes.Equal(n.entry, make([]byte, len(n.entry))) {
+				addTbl(n.entry)
+			}
+			if len(n.ref) > 0 {
+				d, err := lsr.Load(ctx, n.ref)
+				if err != nil {
+					okLoad = false
+				} else {
+					pls = append(pls, fmt.Sprintf("(%s, %s)", hx.CoqBytes(n.ref), hx.CoqBytes(d)))
+				}
+			}
+			for _, k := range n.kids {
+				collect(k)
+			}
+		}
+		collect(rootN)
+		if okLoad {
+			coq := fmt.Sprintf("CLoad [%s]\n    [%s]\n    %s\n    %s", strings.Join(tbl, "; "), strings.Join(pls, ";\n     "), hx.CoqBytes(addr.Bytes()), mterm)
+			run.AddCase("("+coq+")", jc, fmt.Sprintf("load|%v|%d|%s", jc.Root, jc.Sub, strings.Join(jc.Paths, ",")), len(jc.Paths) >= 2)
+			run.Hist("load.nodes=" + bucket(nodes))
+		}
+	}
 }
 
 // ---------------------------------------------------------------- generators
@@ -963,6 +1264,8 @@ func main() {
 			p, msg = hx.Guard(func() { h.doIter(jc) })
 		case "man":
 			p, msg = hx.Guard(func() { h.doMan(jc) })
+		case "lift":
+			p, msg = hx.Guard(func() { h.doLift(jc) })
 		}
 		if p {
 			h.violate(jc.Kind+":panic", msg, jc, nil, nil)
@@ -987,6 +1290,20 @@ func main() {
 	// witness of the second repaired defect: encrypted manifest with the empty "/" entry (64 zero bytes)
 	do(jcase{Kind: "man", Enc: true, Sub: 14, Paths: []string{"index.html", "css/x"}, Sizes: []int{100, 1}, Root: true})
 	do(jcase{Kind: "man", Enc: false, Sub: 15, Paths: []string{"index.html", "css/x"}, Sizes: []int{100, 1}, Root: true})
+
+	// witnesses of the seeded change C09-1 (data-chunk test hoisted out of the reference loop):
+	// the splitter lifts a lone trailing data chunk next to an intermediate chunk in files of
+	// branching+1 chunks (2 GiB + 1..256 KiB plain, 1 GiB + ... encrypted); with controls
+	for _, enc := range []bool{false, true} {
+		b := plainBranching
+		if enc {
+			b = plainBranching / 2
+		}
+		do(jcase{Kind: "lift", Enc: enc, N: b, Tail: 1})     // lifted 1-byte tail
+		do(jcase{Kind: "lift", Enc: enc, N: b + 1, Tail: 0}) // lifted full tail
+		do(jcase{Kind: "lift", Enc: enc, N: b, Tail: 0})     // balanced: one intermediate chunk = root
+		do(jcase{Kind: "lift", Enc: enc, N: b + 1, Tail: 1}) // two intermediate chunks
+	}
 
 	// ---- files
 	sizes := []int{0, 1, 31, 32, 33, chunkSize - 1, chunkSize, chunkSize + 1, 2*chunkSize - 1, 2 * chunkSize, 2*chunkSize + 1, 3 * chunkSize, 5*chunkSize + 7}
